@@ -65,6 +65,7 @@ type FuncContract struct {
 	CallSites map[string][]*Clause // callee short name -> assertions evaluated at every call to it
 	Ghosts    []*GhostVar
 	Spawns    string // "spawns <param>": calling the function starts a goroutine running that func() argument
+	Calls     string // "calls <param>": the function may call that func() argument (its contract's preconditions are obligations at the call)
 	GhostUps  []*GhostUpdate
 	IsClosure bool    // contract of a function literal (key parent$n)
 	IsLemma  bool     // a lemma over spec expressions: parameters are universally quantified, no code
@@ -132,7 +133,7 @@ var tagRe = regexp.MustCompile(`^\[([A-Za-z0-9_, ]+)(?::([A-Za-z0-9_\-\.]+))?\]\
 var keywords = map[string]bool{
 	"func": true, "props": true, "requires": true, "ensures": true, "modifies": true,
 	"loop": true, "invariant": true, "decreases": true, "inline": true, "trusted": true,
-	"pure": true, "unroll": true, "spec": true, "package": true, "noterm": true, "assert": true, "axiom": true, "lemma": true, "callsite": true, "ghost": true, "onassign": true, "oncall": true, "aftercall": true, "closure": true, "chaninv": true, "typeinv": true, "spawns": true, "assumecall": true, "markcall": true, "dyncall": true, "attr": true,
+	"pure": true, "unroll": true, "spec": true, "package": true, "noterm": true, "assert": true, "axiom": true, "lemma": true, "callsite": true, "ghost": true, "onassign": true, "oncall": true, "aftercall": true, "closure": true, "chaninv": true, "typeinv": true, "spawns": true, "calls": true, "assumecall": true, "markcall": true, "dyncall": true, "attr": true,
 }
 
 // LoadFile parses a contract file. pkgPath is the default package path
@@ -293,6 +294,8 @@ func (cs *Contracts) LoadFile(path string, pkgPath string, external bool) error 
 				cur.NoTerm = true
 			case "spawns":
 				cur.Spawns = strings.TrimSpace(rest)
+			case "calls":
+				cur.Calls = strings.TrimSpace(rest)
 			case "loop":
 				n, err := strconv.Atoi(strings.TrimSuffix(strings.TrimSpace(rest), ":"))
 				if err != nil {
